@@ -79,6 +79,7 @@ func (sh *stateHolder) updateState(fn func(*DbState)) {
 	}
 	newState := *oldState // shallow copy
 	fn(&newState)
+	verifOnUpdate(oldState, &newState)
 	if newState.Meta != oldState.Meta {
 		sh.set(&newState)
 	}
@@ -94,10 +95,12 @@ type mergefn func(*meta.Meta, *mergeList) []meta.MergeUpdate
 // It is called by concur.go merger.
 func (db *Database) Merge(fn mergefn, merges *mergeList) {
 	updates := fn(db.GetState().Meta, merges) // outside UpdateState
+	verifPoint("merge.computed", nil)
 	db.UpdateState(func(state *DbState) {
 		m := *state.Meta // copy
 		meta.Apply(&m, updates)
 		state.Meta = &m
+		verifPoint("merge.apply", nil)
 	})
 }
 
@@ -123,8 +126,10 @@ func (db *Database) persist(exec execPersist, flush bool) *DbState {
 	var newState *DbState
 	db.GetState().Meta.Persist(exec.Submit) // outside UpdateState
 	updates := exec.Results()
+	verifPoint("persist.computed", nil)
 	var off uint64
 	db.UpdateState(func(state *DbState) {
+		verifPoint("persist.apply", nil)
 		m := *state.Meta // copy
 		meta.Apply(&m, updates)
 		state.Meta = &m
